@@ -79,7 +79,7 @@ def run_shard(ctx):
     tail = st.one_of(st.just(b""), st.binary(min_size=1, max_size=4))
     for name, strat, n in (
         ("commands", gen.commands(L), 120 if q else 3000),
-        ("responses", gen.responses(L, failed=False), 120 if q else 3000),
+        ("responses", gen.responses(L, unknown_cc=False), 120 if q else 3000),
         ("structures", gen.structures(L), 200 if q else 5000),
     ):
         ctx.run_given(st.tuples(strat, tail), body, ctx.share(n), name=name)
